@@ -89,3 +89,13 @@ package clos
 //@   property C12
 //@   on-map-update m leftmost-wins: !$had
 //@   on-map-update m value-follows-its-keyword: $value == args[i] && i >= 1 && $key == key
+
+// C12: a redefinition reaches the subclasses at every depth: the affected
+// classes are all collected before any of them is merged again, they are put in
+// order (superclasses first; the comparison itself is a closure handed to the
+// library sort and is not verified here), and then every one of them is merged.
+//@ func clos.classChanged
+//@   property C12
+//@   count-calls SliceStable
+//@   on-call mergeSupers ordered-before-merging: $ncall_SliceStable == 1
+//@   full-loop rangeindex+1<len(subs)
